@@ -18,4 +18,6 @@ def run(ctx):
     ctx.cov["rule"] = ("all: random mock registries (0-6 scripted lints of one kind, incl. panicking/nil/out-of-range bodies, config errors) through "
                       "LintCertificateEx / LintRevocationListEx / LintOcspResponseEx vs Core.lint_all; monitor: the real registry (global and filtered) on corpus "
                       "objects, checking count, non-nil, status range, metadata, flags and version; distinct = outcome classes")
-    ctx.notes["stats"] = d.get("stats")
+    st = d.get("stats") or {}
+    ctx.add_eval(st.get("monitor_runs", 0) + st.get("mutants_linted", 0), traces=st.get("monitor_runs", 0) + st.get("mutants_linted", 0))
+    ctx.notes["stats"] = st
